@@ -151,6 +151,55 @@ class Ball(Thing):
         self.tiny = tiny
 
 
+class URL_thing(Thing):
+    """Represent a thing with an abbreviation in its name; concrete with a concrete descendant."""
+
+    target_URL: str
+    """Target"""
+
+    def __init__(self, name: str, target_URL: str) -> None:
+        Thing.__init__(self, name)
+        self.target_URL = target_URL
+
+
+class Signed_URL_thing(URL_thing):
+    """Represent a signed thing."""
+
+    signature: str
+    """Signature"""
+
+    def __init__(self, name: str, target_URL: str, signature: str) -> None:
+        URL_thing.__init__(self, name, target_URL)
+        self.signature = signature
+
+
+#FORMULAS#
+class Formula(DBC):
+    """Represent a formula playground."""
+
+    a: int
+    """A"""
+
+    b: int
+    """B"""
+
+    c: int
+    """C"""
+
+    p: bool
+    """P"""
+
+    q: bool
+    """Q"""
+
+    def __init__(self, a: int, b: int, c: int, p: bool, q: bool) -> None:
+        self.a = a
+        self.b = b
+        self.c = c
+        self.p = p
+        self.q = q
+
+
 @invariant(lambda self: len(self.things) >= 1, "At least one thing")
 class Shelf(DBC):
     """Represent a shelf."""
@@ -165,6 +214,20 @@ class Shelf(DBC):
 __version__ = "dummy"
 __xml_namespace__ = "https://dummy.com"
 '''
+
+# invariants of ``Formula``: operator precedence and nesting as the transpilers have to preserve them
+FORMULAS = [
+    "self.a - (self.b + self.c) >= 0", "self.a - (self.b - self.c) >= 0", "(self.a + self.b) - self.c >= 0",
+    "self.a - self.b - self.c >= 0", "self.a + (self.b - self.c) >= 0", "self.a - (self.b + (self.c - self.a)) >= 1",
+    "not (self.p and self.q) or self.a > 0", "not self.p or not self.q or self.a > 0",
+    "(self.p or self.q) and self.a > 0 or self.b > 0", "self.p or self.q and self.a > 0",
+    "not (self.a > 0 and self.b > 0) or self.c > 0", "not (self.a > 0 or self.b > 0) or self.c > 0",
+    "not (not self.p) or self.a >= self.b", "self.a > self.b or self.b > self.c or self.c > self.a or self.a == self.b",
+    "(self.a > 0) == (self.b > 0) or self.p", "self.a - 1 >= self.b + 1 or self.q",
+    "not (self.a - self.b > self.c) or self.p", "self.p == self.q or self.a != self.b",
+]
+MODEL = MODEL.replace("#FORMULAS#\n", "".join(
+    f'@invariant(lambda self: {e}, "Formula {k}")\n' for k, e in enumerate(FORMULAS)))
 
 SCHEMA_BASE = json.dumps({"$schema": "https://json-schema.org/draft/2019-09/schema", "title": "Dummy", "type": "object",
                           "allOf": [{"$ref": "#/definitions/Shelf"}]})
